@@ -539,6 +539,7 @@ func main() {
 			af := parsed[f]
 			collectGlobals(p, af)
 			scanBlocking(af)
+			harvestConstants(af)
 		}
 		sort.Strings(p.globals)
 		for _, f := range p.files {
@@ -570,6 +571,14 @@ func main() {
 	var b bytes.Buffer
 	fmt.Fprintf(&b, "//go:build verif\n\npackage %s\n\nimport simrt %q\n\n", root.name, modPath+"/internal/simrt")
 	b.WriteString(accessorSrc)
+	// 256-bit constants written in the source as four 64-bit limbs: a dictionary
+	// for the input generator (a comparison against a mistyped constant cannot
+	// be hit by chance, but the constant itself can be offered as an input)
+	b.WriteString("\n// VerifConstants lists the four-limb integer literals of the module's sources.\nfunc VerifConstants() [][4]uint64 {\n\treturn [][4]uint64{\n")
+	for _, c := range harvested {
+		fmt.Fprintf(&b, "\t\t{%d, %d, %d, %d},\n", c[0], c[1], c[2], c[3])
+	}
+	b.WriteString("\t}\n}\n")
 	write(overlay, filepath.Join(root.dir, "zz_verif_accessor.go"), "accessor.go", b.String())
 
 	oj, _ := json.MarshalIndent(map[string]any{"Replace": overlay}, "", " ")
@@ -667,6 +676,39 @@ func collectGlobals(p *pkgInfo, f *ast.File) {
 			}
 		}
 	}
+}
+
+var (
+	harvested    [][4]uint64
+	harvestedSet = map[[4]uint64]bool{}
+)
+
+// harvestConstants collects composite literals made of exactly four unsigned
+// integer literals (the limb form of field elements and scalars).
+func harvestConstants(f *ast.File) {
+	ast.Inspect(f, func(n ast.Node) bool {
+		cl, ok := n.(*ast.CompositeLit)
+		if !ok || len(cl.Elts) != 4 {
+			return true
+		}
+		var c [4]uint64
+		for i, e := range cl.Elts {
+			bl, ok := e.(*ast.BasicLit)
+			if !ok || bl.Kind != token.INT {
+				return true
+			}
+			v, err := strconv.ParseUint(strings.ReplaceAll(bl.Value, "_", ""), 0, 64)
+			if err != nil {
+				return true
+			}
+			c[i] = v
+		}
+		if !harvestedSet[c] && len(harvested) < 512 {
+			harvestedSet[c] = true
+			harvested = append(harvested, c)
+		}
+		return true
+	})
 }
 
 // scanBlocking notes whether a file could block a goroutine or start one.
